@@ -355,6 +355,64 @@ def stream_stags(ctx: Ctx):
     ctx.sample({"stream": "S-tags", "case": terms[len(terms) // 2][:300]})
 
 
+def stream_swheel_platparse(ctx: Ctx):
+    """Model/Tags.v parse_wheel_tags and Model/PlatParse.v against the implementation"""
+    import coqrun
+    from dep_logic.tags import Platform
+    from dep_logic.tags import os as O
+    from dep_logic.tags.tags import parse_wheel_tags
+    rng = random.Random(ctx.seed + 79)
+    terms = []
+    parts_pool = ["foo", "foo_bar", "Foo.Bar", "1.0", "2!1.0.post1", "1", "2b", "py3", "py2.py3", "cp39.cp310", "none", "abi3", "cp39", "any", "manylinux_2_17_x86_64.manylinux2014_x86_64",
+                  "win_amd64", "macosx_10_9_universal2", "manylinux_2_31_armv7l", "macosx_10_9_intel", "linux_armv6l", "", ".", "a.b.", "..", "whl", "x.whl"]
+    for _ in range(600 if ctx.tier == "quick" else 6000):
+        n = rng.choice([3, 4, 5, 5, 5, 6, 6, 7])
+        fn = "-".join(rng.choice(parts_pool) for _ in range(n)) + rng.choice([".whl", ".whl", ".whl", ".zip", "", ".whl.whl", ".wh", "whl"])
+        try:
+            a, b, c = parse_wheel_tags(fn)
+            r = "(Ret (%s, %s, %s))" % tuple("[" + "; ".join(coqrun.cstr(t) for t in x) + "]" for x in (a, b, c))
+        except Exception as e:  # noqa: BLE001
+            r = f"(Raise {type(e).__name__})"
+        terms.append(f"TWheel {coqrun.cstr(fn)} {r}")
+    names = ["linux", "windows", "macos", "alpine", "windows_amd64", "windows_x86", "windows_arm64", "macos_arm64", "macos_x86_64", "windows_i686", "windows_sparc", "windows_", "macos_", "linux_",
+             "manylinux_2_17", "manylinux_2_17_", "manylinux__17_x86_64", "manylinux_2_x_x86_64", "manylinux_2_17_X86_64", "manylinux_2_17_x86-64", "macos_10_9_intel", "musllinux_1_2_ppc64le",
+             "manylinux_02_017_x86_64", "macos_14_0_arm64_x", "manylinux_2_17_i686", "musllinux_1_1_amd64", "macos_12_3_x86_64", "manylinux_2_17_x86_64 ", " linux", "MANYLINUX_2_17_x86_64",
+             "manylinux2014_x86_64", "macosx_10_9_x86_64", "manylinux_2_17_aarch64_", "manylinux_1_2_3_x86_64", "macos_1_2_3_4_arm64"]
+    for ch in Platform.choices():
+        for X, Y in [(1, 1), (2, 17), (10, 9), (11, 0), (2, 5), (12, 10), (100, 0), (2, 123), (0, 0)]:
+            names.append(ch.replace("X", str(X)).replace("Y", str(Y)))
+    MOD = (O.Manylinux, O.Musllinux, O.Macos, O.Windows)
+    for nm in names:
+        try:
+            p = Platform.parse(nm)
+            r = f"(Ret {cplatform(p)[6:-1]})" if isinstance(p.os, MOD) else "NotImpl"
+        except Exception as e:  # noqa: BLE001
+            n = type(e).__name__
+            # names outside the versioned regex go on to the BSD/generic branch, which the model does not cover
+            r = f"(Raise {n})" if n in ("ValueError",) and (nm.startswith("windows_") or _versioned_like(nm)) else "NotImpl"
+        terms.append(f"TPlatParse {coqrun.cstr(nm)} {r}")
+    for osn, A, B in [("Manylinux", 2, 17), ("Manylinux", 2, 123), ("Musllinux", 1, 2), ("Macos", 14, 0), ("Macos", 10, 9), ("Macos", 100, 20), ("Windows", 0, 0)]:
+        for arch in ARCH_COQ:
+            if arch == "arm64":
+                continue
+            from dep_logic.tags.platform import Arch
+            os_ = O.Windows() if osn == "Windows" else getattr(O, osn)(A, B)
+            p = Platform(os_, Arch.parse(arch))
+            terms.append(f"TPlatStr {cplatform(p)[6:-1]} {coqrun.cstr(str(p))}")
+    total, bad, errs = coqrun.eval_cases(terms, f"{ctx.prop}-swheel", mod="Platform Tags PlatParse Corr CorrTags", casety="tcase", runner="run_tcases", shard=300)
+    ctx.count("S-wheel/S-platparse", total)
+    if errs:
+        ctx.broke("correspondence", "S-wheel/S-platparse (evaluation failed)", "\n".join(errs[:3]))
+    if bad:
+        ctx.broke("correspondence", "S-wheel/S-platparse: Model/Tags.v parse_wheel_tags / Model/PlatParse.v vs the implementation", f"{len(bad)} of {total} cases differ; first: {terms[bad[0]][:500]}")
+    ctx.sample({"stream": "S-wheel", "case": terms[3][:200]})
+
+
+def _versioned_like(nm):
+    import re
+    return re.match(r"(manylinux|macos|musllinux)_(\d+?)_(\d+?)_([a-z0-9_]+)$", nm) is not None
+
+
 def cplatform(p):
     if p is None:
         return "None"
